@@ -27,6 +27,7 @@ LEVEL_TEXT = (
     "The read matrix a pool feeds to inference was observed at encode_sample_reads and equals the multiset union of its members' "
     "matrices; call-exact on a pool agrees with call-exact on a physically merged BAM within output rounding."
 )
+LEVEL_TEXT += " Session 3: datasets whose samples are read-group IDs (--read-group-field ID, two read groups per SM), the three spellings of --bam (paths, one-column list, sample<TAB>path list), and every program's columns from shared files compared with runs on physically separate per-sample files."
 LEVEL_NOTE = "Pool-vs-merged comparison for the MCMC programs is limited to the read matrix (the order of de-duplicated reads differs between a pool and a merged BAM, so sampler floating point sums may differ in the last ulp); call-exact is compared numerically with tolerance 0.0015."
 RULE = (
     "case = one (dataset, program, sample selection / order / pool assignment) comparison; non-trivial = involves >=2 samples; "
